@@ -185,6 +185,10 @@ def real_pool_selection_case(seed):
     return out
 
 
+def two_dirs_reader(seed):
+    return core.two_dirs_case(PID, 'reader', seed)
+
+
 def run(tier, seed):
     rep = core.Report(PID, tier, seed)
     pg = core.proof_gate(PID, thorough=(tier == 'thorough'))
@@ -198,6 +202,8 @@ def run(tier, seed):
     for r in core.run_cases(run_case, core.with_corpus(PID, cases)):
         rep.merge(r)
     for r in core.run_cases(real_pool_selection_case, [seed * 100000 + 15900 + i for i in range(1 if tier == 'quick' else 4)]):
+        rep.merge(r)
+    for r in core.run_cases(two_dirs_reader, [seed * 100000 + 99000 + i for i in range(1 if tier == 'quick' else 5)]):
         rep.merge(r)
     rep.obligation('correspondence: Level.stream_iter_all = list(LevelDataStream.__iter__) under 4 completion orders',
                    not any(v[0].get('kind') == 'iter-sequence' for v in rep.violations))
